@@ -15,6 +15,13 @@
 #include "upipe-modules/upipe_queue_source.h"
 #include "upipe-ts/upipe_ts_align.h"
 #include "upipe-framers/upipe_auto_framer.h"
+#include "upipe/upipe_helper_upipe.h"
+#include "upipe/upipe_helper_urefcount.h"
+#include "upipe/upipe_helper_void.h"
+#include "upipe/upipe_helper_output.h"
+#include "upipe/upipe_helper_flow_format.h"
+#include "upipe/upipe_helper_ubuf_mgr.h"
+#include "upipe-modules/upipe_queue.h" /* (internal header of the queue pair: length of its out-of-band queue) */
 
 /* topologies: head -> P1 -> P2 -> {T0,T1}
  *   0: idem -> idem          1: skip -> setflowdef       2: dup (main output) -> idem
@@ -22,7 +29,17 @@
  *   4: ts_align (a bin pipe: helper_bin_input / helper_bin_output around an inner pipe that each
  *      set_flow_def replaces) -> idem
  *   5: auto_framer (a bin pipe that on a new kind of flow first drops its inner pipe, store_bin_input(NULL) /
- *      store_bin_output(NULL), and then stores the new one; unknown formats get an idem inner pipe) -> idem */
+ *      store_bin_output(NULL), and then stores the new one; unknown formats get an idem inner pipe) -> idem
+ *   6: ubm -> idem, where ubm is a filter written here with the real UPIPE_HELPER_OUTPUT / UPIPE_HELPER_FLOW_FORMAT /
+ *      UPIPE_HELPER_UBUF_MGR macros the way their headers prescribe (control = control_ubuf_mgr, then control_output;
+ *      set_flow_def requires a flow format, its answer requires a buffer manager, its answer stores the flow
+ *      definition: the layout of upipe_freetype, the only module of the tree that chains the two helpers without
+ *      intercepting flow-format requests first, and which needs the FreeType library). Such a pipe answers the
+ *      flow-format and buffer-manager requests of its upstream itself (through its probes) and never forwards them;
+ *      its own two requests travel downstream through the output helper like any other.
+ * environment deviation (--env 1, topology 3): the out-of-band queue from the queue sink to the queue source
+ *      (255 entries) can be filled by one operation, a burst of register/unregister of a throw-away request while
+ *      the source is not dispatched; "drain" dispatches until the loop is idle. */
 /* the auto framer's manager looks up every framer; none is needed here (unknown formats get idem) */
 #define NOFRAMER(n) struct upipe_mgr *upipe_##n##_mgr_alloc(void) { return NULL; }
 NOFRAMER(a52f) NOFRAMER(dvbsubf) NOFRAMER(h264f) NOFRAMER(h265f) NOFRAMER(id3v2f)
@@ -31,21 +48,28 @@ NOFRAMER(mpgaf) NOFRAMER(mpgvf) NOFRAMER(opusf) NOFRAMER(s302f) NOFRAMER(telxf)
 static int g_topo = 0;
 static int g_pool = 0;
 static int g_nreq = 2;
-static int g_tprov = 0;   /* 1: the providers answer uref_mgr / uclock inside register (synchronously);
+static unsigned g_mask = 0; /* request types of the alphabet (bit r of req_types); --nreq n = the first n, --reqs a,b,.. = those */
+static int g_tprov = 0;   /* 1: the providers answer uref_mgr / uclock / ubuf_mgr inside register (synchronously);
                            * 2: the providers decline every request (UNHANDLED): the probes must then be asked */
 static int g_cbmode = 0;  /* 1: the uref_mgr callback withdraws and re-issues the uclock request (the way a
                            * flow-format answer makes a filter re-require its ubuf manager) */
+static int g_env = 0;     /* 1 (topology 3): P1 -> queue sink and P2 -> T0 are plumbed from the start, the alphabet is
+                           * register / unregister / provide / dispatch / fill / drain */
+static int g_head = 0;    /* 1 (with --env 1): the head registers on the queue sink itself (no filter in between) */
 static bool g_in_requeue;
 
-#define NREQ 3
-static const int req_types[NREQ] = {UREQUEST_UREF_MGR, UREQUEST_UCLOCK, UREQUEST_SINK_LATENCY};
-static const char *req_names[NREQ] = {"uref_mgr", "uclock", "sink_latency"};
+#define NREQ 5
+static const int req_types[NREQ] = {UREQUEST_UREF_MGR, UREQUEST_UCLOCK, UREQUEST_SINK_LATENCY, UREQUEST_FLOW_FORMAT, UREQUEST_UBUF_MGR};
+static const char *req_names[NREQ] = {"uref_mgr", "uclock", "sink_latency", "flow_format", "ubuf_mgr"};
+#define IN_ALPHABET(r) ((g_mask >> (r)) & 1u)
 
 struct cbrec {
     int stamp, req;
     uint64_t value;
     bool while_unregistered;
 };
+
+struct ubm;
 
 struct st {
     struct px_fix fx;
@@ -61,11 +85,29 @@ struct st {
     int ncb;
     uint64_t hist_hash;
     int nops;
-    /* expectation set by the last provide op: request index, value, how many callbacks before */
-    int pend_req;
-    uint64_t pend_val;
-    int pend_base;
-    bool pending;
+    /* expectation set by the provide ops, per request: how many answers the providers gave since the callback log
+     * stood at pend_base, with which value (pend_mixed: not always the same), and whether a registration of this
+     * request that the head had already withdrawn could still be lodged at the provider then (the withdrawal
+     * travelling in the queue, or lost): such an answer is rightly dropped on the way back */
+    int pend_n[NREQ];
+    uint64_t pend_val[NREQ];
+    int pend_base[NREQ];
+    bool pend_mixed[NREQ], pend_amb[NREQ];
+    bool unreg_inflight[NREQ]; /* topology 3: withdrawn since the loop was last idle */
+    /* topology 6: the requests P1 issues itself (observed from the pipe's own code below) */
+    struct ubm *ubm;
+    bool own_ff, own_ubm;      /* P1 has required a flow format / a buffer manager and not withdrawn it */
+    int own_ff_answers, own_ubm_answers;
+    bool pend_own;             /* the last provide op answered P1's own flow-format request */
+    int pend_own_base;
+    /* queue-full deviation */
+    struct urequest dreq, dhold; /* throw-away requests of the burst */
+    bool dreq_reg, dhold_reg, filled;
+    int d_cb_unreg;            /* callbacks of a throw-away request while it was not registered */
+    bool refused[NREQ];        /* the registration was refused (queue full): nothing travels downstream */
+    int stale[NREQ];           /* withdrawals that could not be sent (queue full) */
+    bool refusal_unreported;
+    bool never_idle;
     bool viol;
     char vsig[96], vmsg[500];
 };
@@ -76,12 +118,142 @@ static struct st *g_cur;
     do {                                                                       \
         if (!(st_)->viol) {                                                    \
             (st_)->viol = true;                                                \
-            snprintf((st_)->vsig, sizeof((st_)->vsig), "topo%d%s:%s", g_topo, g_cbmode ? ":requeue" : "", sig_); \
+            snprintf((st_)->vsig, sizeof((st_)->vsig), "topo%d%s%s:%s", g_topo, g_cbmode ? ":requeue" : "", g_env ? ":qfull" : "", sig_); \
             snprintf((st_)->vmsg, sizeof((st_)->vmsg), __VA_ARGS__);           \
         }                                                                      \
     } while (0)
 
+/* ---- topology 6: a filter made of the output, flow-format and buffer-manager helpers (layout of upipe_freetype) ---- */
+#define UBM_SIGNATURE UBASE_FOURCC('c', 'u', 'b', 'm')
+struct ubm {
+    struct urefcount urefcount;
+    struct upipe *output;
+    struct uref *flow_def;
+    enum upipe_helper_output_state output_state;
+    struct uchain request_list;
+    struct urequest flow_format_request;
+    struct ubuf_mgr *ubuf_mgr;
+    struct uref *flow_format;
+    struct urequest ubuf_mgr_request;
+    struct upipe upipe;
+};
+
+static void ubm_free(struct upipe *upipe);
+static int ubm_check_flow_format(struct upipe *upipe, struct uref *flow_format);
+static int ubm_check_ubuf_mgr(struct upipe *upipe, struct uref *flow_format);
+
+UPIPE_HELPER_UPIPE(ubm, upipe, UBM_SIGNATURE)
+UPIPE_HELPER_UREFCOUNT(ubm, urefcount, ubm_free)
+UPIPE_HELPER_VOID(ubm)
+UPIPE_HELPER_OUTPUT(ubm, output, flow_def, output_state, request_list)
+UPIPE_HELPER_FLOW_FORMAT(ubm, flow_format_request, ubm_check_flow_format, ubm_register_output_request, ubm_unregister_output_request)
+UPIPE_HELPER_UBUF_MGR(ubm, ubuf_mgr, flow_format, ubuf_mgr_request, ubm_check_ubuf_mgr, ubm_register_output_request, ubm_unregister_output_request)
+
+static struct upipe *ubm_alloc(struct upipe_mgr *mgr, struct uprobe *uprobe, uint32_t signature, va_list args)
+{
+    struct upipe *upipe = ubm_alloc_void(mgr, uprobe, signature, args);
+    if (unlikely(upipe == NULL))
+        return NULL;
+    ubm_init_urefcount(upipe);
+    ubm_init_output(upipe);
+    ubm_init_flow_format(upipe);
+    ubm_init_ubuf_mgr(upipe);
+    upipe_throw_ready(upipe);
+    return upipe;
+}
+
+/* the buffer manager arrived: the flow definition can go out */
+static int ubm_check_ubuf_mgr(struct upipe *upipe, struct uref *flow_format)
+{
+    g_cur->own_ubm_answers++;
+    if (flow_format != NULL)
+        ubm_store_flow_def(upipe, flow_format);
+    return UBASE_ERR_NONE;
+}
+
+/* the flow format arrived: a buffer manager for it is required */
+static int ubm_check_flow_format(struct upipe *upipe, struct uref *flow_format)
+{
+    g_cur->own_ff_answers++;
+    g_cur->own_ubm = true;
+    ubm_require_ubuf_mgr(upipe, flow_format);
+    return UBASE_ERR_NONE;
+}
+
+static int ubm_set_flow_def(struct upipe *upipe, struct uref *flow_def)
+{
+    struct ubm *ubm = ubm_from_upipe(upipe);
+    if (flow_def == NULL)
+        return UBASE_ERR_INVALID;
+    struct uref *flow_format = uref_dup(flow_def);
+    UBASE_ALLOC_RETURN(flow_format);
+    if (urequest_get_opaque(&ubm->ubuf_mgr_request, struct upipe *) != NULL) {
+        /* a new format is negotiated: the buffer manager request for the old one is withdrawn */
+        ubm_unregister_output_request(upipe, &ubm->ubuf_mgr_request);
+        urequest_clean(&ubm->ubuf_mgr_request);
+        ubm_clean_ubuf_mgr(upipe);
+        ubm_init_ubuf_mgr(upipe);
+        g_cur->own_ubm = false;
+    }
+    g_cur->own_ff = true;
+    ubm_require_flow_format(upipe, flow_format);
+    return UBASE_ERR_NONE;
+}
+
+static int ubm_control(struct upipe *upipe, int command, va_list args)
+{
+    /* "Make sure to call this function before the output control helper function" (upipe_helper_ubuf_mgr.h) */
+    UBASE_HANDLED_RETURN(ubm_control_ubuf_mgr(upipe, command, args));
+    UBASE_HANDLED_RETURN(ubm_control_output(upipe, command, args));
+    switch (command) {
+    case UPIPE_SET_FLOW_DEF: {
+        struct uref *flow_def = va_arg(args, struct uref *);
+        return ubm_set_flow_def(upipe, flow_def);
+    }
+    default:
+        return UBASE_ERR_UNHANDLED;
+    }
+}
+
+static void ubm_input(struct upipe *upipe, struct uref *uref, struct upump **upump_p)
+{
+    ubm_output(upipe, uref, upump_p);
+}
+
+static void ubm_free(struct upipe *upipe)
+{
+    upipe_throw_dead(upipe);
+    ubm_clean_output(upipe);
+    ubm_clean_ubuf_mgr(upipe);
+    ubm_clean_flow_format(upipe);
+    ubm_clean_urefcount(upipe);
+    ubm_free_void(upipe);
+}
+
+static struct upipe_mgr ubm_mgr = {
+    .refcount = NULL,
+    .signature = UBM_SIGNATURE,
+    .upipe_alloc = ubm_alloc,
+    .upipe_input = ubm_input,
+    .upipe_control = ubm_control,
+};
+
 /* ---- head requester ---- */
+/* what a flow format carries: its definition string and the marker attribute f.id */
+static uint64_t ff_value(struct uref *ff)
+{
+    if (ff == NULL)
+        return 0;
+    const char *def = NULL;
+    uint64_t id = 0;
+    uint64_t v = 1;
+    if (ubase_check(uref_flow_get_def(ff, &def)) && def != NULL)
+        v += 131 * (uint64_t)strlen(def);
+    if (ubase_check(uref_flow_get_id(ff, &id)))
+        v += (id + 1) << 16;
+    return v;
+}
+
 static int head_provide(struct urequest *urequest, va_list args)
 {
     struct st *st = g_cur;
@@ -104,15 +276,41 @@ static int head_provide(struct urequest *urequest, va_list args)
     case UREQUEST_SINK_LATENCY:
         v = va_arg(args, uint64_t);
         break;
+    case UREQUEST_FLOW_FORMAT: {
+        struct uref *ff = va_arg(args, struct uref *);
+        v = ff_value(ff);
+        uref_free(ff);
+        break;
+    }
+    case UREQUEST_UBUF_MGR: {
+        struct ubuf_mgr *m = va_arg(args, struct ubuf_mgr *);
+        struct uref *ff = va_arg(args, struct uref *);
+        v = (uint64_t)(uintptr_t)m ^ ff_value(ff);
+        ubuf_mgr_release(m);
+        uref_free(ff);
+        break;
+    }
     }
     if (st->ncb < 64)
         st->cb[st->ncb++] = (struct cbrec){st->fx.stamp++, r, v, !st->reg[r]};
     if (g_cbmode == 1 && r == 0 && st->reg[1] && !g_in_requeue && st->p1 != NULL) {
         g_in_requeue = true;
+        st->unreg_inflight[1] = g_topo == 3;
         upipe_unregister_request(st->p1, &st->req[1]);
         upipe_register_request(st->p1, &st->req[1]);
         g_in_requeue = false;
     }
+    return UBASE_ERR_NONE;
+}
+
+/* the throw-away requests of the burst (sink latency) */
+static int fill_provide(struct urequest *urequest, va_list args)
+{
+    struct st *st = g_cur;
+    (void)va_arg(args, uint64_t);
+    bool live = urequest == &st->dreq ? st->dreq_reg : st->dhold_reg;
+    if (!live)
+        st->d_cb_unreg++;
     return UBASE_ERR_NONE;
 }
 
@@ -124,24 +322,56 @@ enum {
     OP_PROVIDE_T0, OP_PROVIDE_T1,
     OP_PUMP0, OP_PUMP1, OP_PUMP2,
     OP_REL_P2, OP_REL_P1,
-    OP_P1_FLOWDEF, /* topology 4/5: (re)creates the inner pipe of the bin */
+    OP_P1_FLOWDEF, /* topology 4/5/6: (re)creates the inner pipe of the bin; makes the filter of topology 6 negotiate */
     OP_P1_FLOWDEF2, /* topology 5: another kind of flow, the inner pipe is dropped and rebuilt */
+    /* (appended, so that the numbering of the operations above - replay ids - stays what it was) */
+    OP_REG3, OP_REG4,
+    OP_UNREG3, OP_UNREG4,
+    OP_FILL,  /* --env 1: register / unregister a throw-away request until the out-of-band queue is full */
+    OP_DRAIN, /* --env 1: dispatch until the loop is idle */
     NOPS
 };
+
+static int op_reg(int op)
+{
+    if (op >= OP_REG0 && op <= OP_REG2)
+        return op - OP_REG0;
+    if (op >= OP_REG3 && op <= OP_REG4)
+        return 3 + op - OP_REG3;
+    return -1;
+}
+
+static int op_unreg(int op)
+{
+    if (op >= OP_UNREG0 && op <= OP_UNREG2)
+        return op - OP_UNREG0;
+    if (op >= OP_UNREG3 && op <= OP_UNREG4)
+        return 3 + op - OP_UNREG3;
+    return -1;
+}
 
 static void opstr(int op, char *b, size_t n)
 {
     static const char *nm[] = {"register(uref_mgr)", "register(uclock)", "register(sink_latency)", "unregister(uref_mgr)", "unregister(uclock)",
                                "unregister(sink_latency)", "P1.set_output(P2)", "P1.set_output(NULL)", "P2.set_output(T0)", "P2.set_output(T1)",
                                "P2.set_output(NULL)", "T0.provide(first lodged)", "T1.provide(first lodged)", "dispatch(pump 0)", "dispatch(pump 1)",
-                               "dispatch(pump 2)", "release(P2)", "release(P1)", "P1.set_flow_def", "P1.set_flow_def(other kind)"};
+                               "dispatch(pump 2)", "release(P2)", "release(P1)", "P1.set_flow_def", "P1.set_flow_def(other kind)",
+                               "register(flow_format)", "register(ubuf_mgr)", "unregister(flow_format)", "unregister(ubuf_mgr)",
+                               "fill(out-of-band queue)", "drain(dispatch until idle)"};
     snprintf(b, n, "%s", op >= 0 && op < NOPS ? nm[op] : "?");
 }
 
 /* entry of the chain where the head registers, and the pipe whose output is "next" */
-static struct upipe *head_pipe(struct st *st) { return st->p1; }
+static struct upipe *head_pipe(struct st *st) { return g_head ? st->qsink : st->p1; }
 /* the pipe the P1-side connects to (P2, or the queue sink) */
 static struct upipe *p1_next(struct st *st) { return g_topo == 3 ? st->qsink : st->p2; }
+/* does what the head registers reach the pipe after P1 */
+static bool head_routed(struct st *st) { return g_head ? true : st->p1_inner && st->p1_out == 1; }
+/* topology 6: P1 answers these itself and forwards nothing */
+static bool answered_by_p1(int r) { return g_topo == 6 && (req_types[r] == UREQUEST_FLOW_FORMAT || req_types[r] == UREQUEST_UBUF_MGR); }
+
+static struct uqueue *oob_down(struct st *st) { return &upipe_queue(st->qsrc)->downstream_oob; }
+static bool oob_full(struct st *st) { return g_topo == 3 && st->qsrc != NULL && uqueue_length(oob_down(st)) >= oob_down(st)->length; }
 
 static void *init(void)
 {
@@ -152,8 +382,16 @@ static void *init(void)
     struct px_cfg cfg = {.pool = g_pool, .prepend = 0, .append = 0, .align = 0};
     px_fix_init(&st->fx, &cfg);
     struct px_fix *fx = &st->fx;
-    for (int r = 0; r < NREQ; r++)
-        urequest_init(&st->req[r], req_types[r], NULL, head_provide, NULL);
+    for (int r = 0; r < NREQ; r++) {
+        struct uref *ff = NULL;
+        if (IN_ALPHABET(r) && (req_types[r] == UREQUEST_FLOW_FORMAT || req_types[r] == UREQUEST_UBUF_MGR)) {
+            ff = px_flow(fx, "block.", 7);
+            assert(ff);
+        }
+        urequest_init(&st->req[r], req_types[r], ff, head_provide, NULL);
+    }
+    urequest_init_sink_latency(&st->dreq, fill_provide, NULL);
+    urequest_init_sink_latency(&st->dhold, fill_provide, NULL);
     for (int k = 0; k < 2; k++) {
         fx->sinks[k].sync_provide = g_tprov == 1;
         fx->sinks[k].unhandled_requests = g_tprov == 2;
@@ -194,22 +432,43 @@ static void *init(void)
         st->p2 = upipe_void_alloc(upipe_idem_mgr_alloc(), px_probe(fx));
         break;
     }
+    case 6:
+        st->p1 = upipe_void_alloc(&ubm_mgr, px_probe(fx));
+        assert(st->p1);
+        st->ubm = ubm_from_upipe(st->p1);
+        st->p2 = upipe_void_alloc(upipe_idem_mgr_alloc(), px_probe(fx));
+        break;
     }
-    st->p1_inner = g_topo < 4;
+    st->p1_inner = g_topo < 4 || g_topo == 6;
     assert(st->p1 && st->p2);
+    if (g_env) {
+        ubase_assert(upipe_set_output(st->p1, st->qsink));
+        st->p1_out = 1;
+        ubase_assert(upipe_set_output(st->p2, &fx->sinks[0].upipe));
+        st->p2_out = 1;
+    }
     pxm_pause();
     return st;
 }
+
+static bool loop_idle(struct st *st);
 
 static bool enabled_cb(void *vst, int op)
 {
     struct st *st = vst;
     if (st->p1_released)
         return op >= OP_PUMP0 && op <= OP_PUMP2 && g_topo == 3;
-    if (op >= OP_REG0 && op <= OP_REG2)
-        return op - OP_REG0 < g_nreq && !st->reg[op - OP_REG0];
-    if (op >= OP_UNREG0 && op <= OP_UNREG2)
-        return op - OP_UNREG0 < g_nreq && st->reg[op - OP_UNREG0];
+    if (op_reg(op) >= 0)
+        return IN_ALPHABET(op_reg(op)) && !st->reg[op_reg(op)];
+    if (op_unreg(op) >= 0)
+        return IN_ALPHABET(op_unreg(op)) && st->reg[op_unreg(op)];
+    if (op == OP_FILL)
+        return g_env && !st->filled;
+    if (op == OP_DRAIN)
+        return g_env && !loop_idle(st);
+    if (g_env && (op == OP_P1_NEXT || op == OP_P1_NULL || op == OP_P2_T0 || op == OP_P2_T1 || op == OP_P2_NULL || op == OP_REL_P2 ||
+                  op == OP_REL_P1))
+        return false; /* (the plumbing is fixed in this mode) */
     if (op == OP_P1_NEXT)
         return !st->p2_released || g_topo == 3;
     if (op == OP_P2_T0 || op == OP_P2_T1 || op == OP_P2_NULL || op == OP_REL_P2)
@@ -231,13 +490,42 @@ static bool enabled_cb(void *vst, int op)
     return true;
 }
 
-/* number of registrations of type t lodged at sink k */
-static int lodged(struct st *st, int k, int t)
+/* who issued a request a provider holds: the head (index in *r), P1 itself (topology 6), the burst.
+ * Between the provider and the issuer there are only the proxies of the output helper (their opaque is the
+ * request they stand for); followed in topology 6 only, where every hop is such a proxy. */
+enum { ORG_HEAD, ORG_OWN_FF, ORG_OWN_UBM, ORG_UNKNOWN };
+static int origin(struct st *st, struct urequest *q, int *r)
+{
+    *r = -1;
+    if (g_topo != 6) {
+        for (int i = 0; i < NREQ; i++)
+            if (req_types[i] == q->type)
+                *r = i;
+        return ORG_HEAD;
+    }
+    for (int hop = 0; hop < 3 && q != NULL; hop++) {
+        if (q >= st->req && q < st->req + NREQ) {
+            *r = (int)(q - st->req);
+            return ORG_HEAD;
+        }
+        if (st->ubm != NULL && q == &st->ubm->flow_format_request)
+            return ORG_OWN_FF;
+        if (st->ubm != NULL && q == &st->ubm->ubuf_mgr_request)
+            return ORG_OWN_UBM;
+        q = urequest_get_opaque(q, struct urequest *);
+    }
+    return ORG_UNKNOWN;
+}
+
+/* number of registrations of type t and origin org lodged at sink k */
+static int lodged(struct st *st, int k, int t, int org)
 {
     int n = 0;
-    for (int i = 0; i < st->fx.sinks[k].nreqs; i++)
-        if (st->fx.sinks[k].reqs[i]->type == t)
+    for (int i = 0; i < st->fx.sinks[k].nreqs; i++) {
+        int r;
+        if (st->fx.sinks[k].reqs[i]->type == t && origin(st, st->fx.sinks[k].reqs[i], &r) == org)
             n++;
+    }
     return n;
 }
 
@@ -247,25 +535,37 @@ static bool loop_idle(struct st *st)
     return px_ready_pumps(&st->fx, r, 8) == 0;
 }
 
+/* the provider that what travels from the pipe after P1 reaches, -1 none (providers that decline hold nothing) */
+static int reached_provider(struct st *st)
+{
+    return st->p2_out != 0 && g_tprov != 2 ? st->p2_out - 1 : -1;
+}
+
 static void check_routing(struct st *st, const char *when)
 {
     /* the queue carries register/unregister as messages: only judge when the loop is idle */
     if (g_topo == 3 && !loop_idle(st))
         return;
-    for (int r = 0; r < g_nreq; r++) {
+    for (int r = 0; r < NREQ; r++) {
+        if (!IN_ALPHABET(r))
+            continue;
         int t = req_types[r];
         int want = -1; /* sink that must hold it, -1 none */
-        if (st->reg[r] && st->p1_inner && st->p1_out == 1 && st->p2_out != 0 && g_tprov != 2)
-            want = st->p2_out - 1; /* (providers that decline hold nothing) */
+        if (st->reg[r] && head_routed(st) && !answered_by_p1(r) && !st->refused[r])
+            want = reached_provider(st);
+        int stale_at = st->stale[r] ? reached_provider(st) : -1; /* (what the queue source still holds follows its output) */
         for (int k = 0; k < 2; k++) {
-            int n = lodged(st, k, t);
-            int exp = (k == want) ? 1 : 0;
+            int n = lodged(st, k, t, ORG_HEAD);
+            int exp = (k == want ? 1 : 0) + (k == stale_at ? st->stale[r] : 0);
             if (n != exp) {
                 char sg[80];
-                snprintf(sg, sizeof(sg), "%s:%s", n > exp ? (exp ? "registered-twice" : "not-withdrawn") : "not-forwarded", req_names[r]);
-                FAIL(st, sg, "%s: provider T%d holds %d registration(s) of the %s request, expected %d (request %sregistered at the head, P1 -> %s, P2 -> %s)",
-                     when, k, n, req_names[r], exp, st->reg[r] ? "" : "not ", st->p1_out ? "P2" : "none",
-                     st->p2_out == 0 ? "none" : st->p2_out == 1 ? "T0" : "T1");
+                snprintf(sg, sizeof(sg), "%s:%s",
+                         n > exp ? (exp ? "registered-twice" : answered_by_p1(r) && st->reg[r] ? "forwarded-instead-of-answered" : "not-withdrawn")
+                                 : "not-forwarded",
+                         req_names[r]);
+                FAIL(st, sg, "%s: provider T%d holds %d registration(s) of the %s request, expected %d (request %sregistered at the head%s, P1 -> %s, P2 -> %s)",
+                     when, k, n, req_names[r], exp, st->reg[r] ? "" : "not ", answered_by_p1(r) ? ", P1 answers this type itself" : "",
+                     st->p1_out ? "P2" : "none", st->p2_out == 0 ? "none" : st->p2_out == 1 ? "T0" : "T1");
             }
         }
     }
@@ -274,13 +574,62 @@ static void check_routing(struct st *st, const char *when)
             FAIL(st, "unregister-of-unknown-request", "%s: provider T%d was asked to unregister a request it does not hold", when, k);
 }
 
+/* topology 6: what P1 requires for itself travels through its output helper like the requests of the head; and what
+ * P1 answers itself is answered exactly once, at registration */
+static void check_p1(struct st *st, const char *when)
+{
+    if (g_topo != 6)
+        return;
+    int want = st->p1_out == 1 ? reached_provider(st) : -1;
+    for (int k = 0; k < 2; k++) {
+        for (int w = 0; w < 2; w++) {
+            int n = lodged(st, k, w ? UREQUEST_UBUF_MGR : UREQUEST_FLOW_FORMAT, w ? ORG_OWN_UBM : ORG_OWN_FF);
+            int exp = k == want && (w ? st->own_ubm : st->own_ff);
+            if (n != exp) {
+                char sg[80];
+                snprintf(sg, sizeof(sg), "own-request:%s:%s", n > exp ? (exp ? "registered-twice" : "not-withdrawn") : "not-forwarded",
+                         w ? "ubuf_mgr" : "flow_format");
+                FAIL(st, sg, "%s: provider T%d holds %d registration(s) of the %s request P1 issues itself, expected %d (P1 -> %s, P2 -> %s)", when, k, n,
+                     w ? "ubuf_mgr" : "flow_format", exp, st->p1_out ? "P2" : "none", st->p2_out == 0 ? "none" : st->p2_out == 1 ? "T0" : "T1");
+            }
+        }
+        for (int i = 0; i < st->fx.sinks[k].nreqs; i++) {
+            int r;
+            if (origin(st, st->fx.sinks[k].reqs[i], &r) == ORG_UNKNOWN)
+                FAIL(st, "request-of-unknown-origin", "%s: provider T%d holds a request that stands neither for a request of the head nor of P1", when, k);
+        }
+    }
+    for (int r = 0; r < NREQ; r++) {
+        if (!IN_ALPHABET(r) || !answered_by_p1(r) || !st->reg[r])
+            continue;
+        int n = 0;
+        for (int i = st->reg_cb_base[r]; i < st->ncb; i++)
+            n += st->cb[i].req == r;
+        if (n != 1) {
+            char sg[80];
+            snprintf(sg, sizeof(sg), "%s:%s", n == 0 ? "not-answered-by-the-pipe" : "answered-more-than-once", req_names[r]);
+            FAIL(st, sg, "%s: the %s request is registered on P1, which answers this type itself through its probes: the head callback fired %d time(s) "
+                         "since the registration, expected exactly 1", when, req_names[r], n);
+        }
+    }
+    if (st->pend_own) {
+        int n = st->own_ff_answers - st->pend_own_base;
+        if (st->own_ff && n != 1)
+            FAIL(st, n == 0 ? "own-request:answer-lost:flow_format" : "own-request:answer-duplicated:flow_format",
+                 "%s: the provider answered the flow_format request of P1 once; P1's callback fired %d time(s)", when, n);
+        st->pend_own = false;
+    }
+}
+
 /* providers that decline: a request nobody downstream handles ends up at the probes, which answer
- * uref_mgr and uclock at once */
+ * uref_mgr, uclock, flow_format and ubuf_mgr at once */
 static void check_probe_fallback(struct st *st, const char *when)
 {
     if (g_tprov != 2 || (g_topo == 3 && !loop_idle(st)) || !st->p1_inner)
         return;
-    for (int r = 0; r < g_nreq && r < 2; r++) {
+    for (int r = 0; r < NREQ; r++) {
+        if (!IN_ALPHABET(r) || req_types[r] == UREQUEST_SINK_LATENCY)
+            continue;
         if (!st->reg[r])
             continue;
         int n = 0;
@@ -303,26 +652,49 @@ static void check_callbacks(struct st *st, const char *when)
             snprintf(sg, sizeof(sg), "callback-after-unregister:%s", req_names[st->cb[i].req]);
             FAIL(st, sg, "%s: the head callback of the %s request was invoked while it was not registered", when, req_names[st->cb[i].req]);
         }
-    if (st->pending && (g_topo != 3 || loop_idle(st))) {
-        int n = 0;
+    if (st->d_cb_unreg)
+        FAIL(st, "callback-after-unregister:burst-request", "%s: the callback of a throw-away request of the burst was invoked while it was not registered",
+             when);
+    for (int r = 0; r < NREQ && (g_topo != 3 || loop_idle(st)); r++) {
+        if (st->pend_n[r] == 0)
+            continue;
+        int n = 0, want = st->pend_n[r];
         bool val_ok = true;
-        for (int i = st->pend_base; i < st->ncb; i++)
-            if (st->cb[i].req == st->pend_req) {
+        for (int i = st->pend_base[r]; i < st->ncb; i++)
+            if (st->cb[i].req == r) {
                 n++;
-                if (st->cb[i].value != st->pend_val)
+                if (!st->pend_mixed[r] && st->cb[i].value != st->pend_val[r])
                     val_ok = false;
             }
-        bool still = st->reg[st->pend_req];
-        if (still && n != 1) {
+        bool still = st->reg[r];
+        if (still && (st->pend_amb[r] ? n > want : n != want)) {
             char sg[64];
-            snprintf(sg, sizeof(sg), "%s:%s", n == 0 ? "answer-lost" : "answer-duplicated", req_names[st->pend_req]);
-            FAIL(st, sg, "%s: the provider answered the %s request once; the head callback fired %d time(s)", when, req_names[st->pend_req], n);
+            snprintf(sg, sizeof(sg), "%s:%s", n < want ? "answer-lost" : "answer-duplicated", req_names[r]);
+            FAIL(st, sg, "%s: the provider answered the %s request %d time(s); the head callback fired %d time(s)", when, req_names[r], want, n);
         } else if (n >= 1 && !val_ok) {
             FAIL(st, "answer-wrong-value", "%s: the head callback of the %s request received another value than the provider gave", when,
-                 req_names[st->pend_req]);
+                 req_names[r]);
         }
-        st->pending = false;
+        st->pend_n[r] = 0;
     }
+}
+
+/* queue-full deviation: what the full queue made impossible must have been reported, and must not last */
+static void check_qfull(struct st *st, const char *when)
+{
+    if (g_topo != 3)
+        return;
+    if (st->refusal_unreported)
+        FAIL(st, "refusal-not-reported", "%s: a request was registered while the out-of-band queue was full (it cannot travel) and register_request "
+                                         "returned no error", when);
+    if (st->never_idle)
+        FAIL(st, "loop-never-idle", "%s: 4000 dispatches did not empty the queues", when);
+    if (!loop_idle(st))
+        return;
+    for (int r = 0; r < NREQ; r++)
+        if (st->stale[r])
+            FAIL(st, "withdrawal-lost", "%s: the %s request was unregistered while the out-of-band queue was full; the loop is idle again and the provider "
+                                        "still holds its registration (%d stale): the withdrawal was dropped, not deferred", when, req_names[r], st->stale[r]);
 }
 
 static int dispatch(struct st *st, int which)
@@ -335,32 +707,90 @@ static int dispatch(struct st *st, int which)
     return 0;
 }
 
+static void drain(struct st *st)
+{
+    int budget = 4000;
+    while (budget-- > 0 && dispatch(st, 0) == 0)
+        ;
+    if (!loop_idle(st))
+        st->never_idle = true;
+}
+
+/* registers and withdraws a throw-away request until the out-of-band queue has no room left (an odd last slot is
+ * taken by a second throw-away request that stays registered) */
+static void fill(struct st *st)
+{
+    struct uqueue *q = oob_down(st);
+    while (uqueue_length(q) + 2 <= q->length) {
+        st->dreq_reg = true;
+        ubase_assert(upipe_register_request(head_pipe(st), &st->dreq));
+        upipe_unregister_request(head_pipe(st), &st->dreq);
+        st->dreq_reg = false;
+    }
+    if (uqueue_length(q) < q->length) {
+        st->dhold_reg = true;
+        ubase_assert(upipe_register_request(head_pipe(st), &st->dhold));
+    }
+    assert(oob_full(st));
+    st->filled = true;
+}
+
+/* a provider is about to answer, with this value, a registration that stands for request r of the head */
+static void expect_answer(struct st *st, int org, int r, uint64_t val)
+{
+    if (org != ORG_HEAD || r < 0)
+        return;
+    if (st->pend_n[r] == 0) {
+        st->pend_base[r] = st->ncb;
+        st->pend_val[r] = val;
+        st->pend_mixed[r] = st->pend_amb[r] = false;
+    } else if (st->pend_val[r] != val)
+        st->pend_mixed[r] = true;
+    st->pend_n[r]++;
+    if (st->unreg_inflight[r] || st->stale[r])
+        st->pend_amb[r] = true;
+}
+
 static void do_provide(struct st *st, int k)
 {
     struct px_sink *s = &st->fx.sinks[k];
     struct urequest *q = s->reqs[0];
     int r = -1;
-    for (int i = 0; i < NREQ; i++)
-        if (req_types[i] == q->type)
-            r = i;
-    st->pending = true;
-    st->pend_req = r;
-    st->pend_base = st->ncb;
+    int org = origin(st, q, &r);
+    if (org == ORG_OWN_FF) {
+        st->pend_own = true;
+        st->pend_own_base = st->own_ff_answers;
+    }
     switch (q->type) {
     case UREQUEST_UREF_MGR: {
         struct uref_mgr *m = k == 0 ? st->fx.uref_mgr : st->fx.uref_inner;
-        st->pend_val = (uint64_t)(uintptr_t)m;
+        expect_answer(st, org, r, (uint64_t)(uintptr_t)m);
         urequest_provide_uref_mgr(q, uref_mgr_use(m));
         break;
     }
     case UREQUEST_UCLOCK:
-        st->pend_val = (uint64_t)(uintptr_t)&st->fx.clock.uclock;
+        expect_answer(st, org, r, (uint64_t)(uintptr_t)&st->fx.clock.uclock);
         urequest_provide_uclock(q, uclock_use(&st->fx.clock.uclock));
         break;
     case UREQUEST_SINK_LATENCY:
-        st->pend_val = 100 + k;
+        expect_answer(st, org, r, 100 + k);
         urequest_provide_sink_latency(q, 100 + k);
         break;
+    case UREQUEST_FLOW_FORMAT:
+    case UREQUEST_UBUF_MGR: {
+        /* the provider amends the proposed format (marker 100 + k) */
+        struct uref *ff = uref_dup(q->uref);
+        assert(ff);
+        ubase_assert(uref_flow_set_id(ff, 100 + k));
+        if (q->type == UREQUEST_FLOW_FORMAT) {
+            expect_answer(st, org, r, ff_value(ff));
+            urequest_provide_flow_format(q, ff);
+        } else {
+            expect_answer(st, org, r, (uint64_t)(uintptr_t)st->fx.ubuf_mgr ^ ff_value(ff));
+            urequest_provide_ubuf_mgr(q, ubuf_mgr_use(st->fx.ubuf_mgr), ff);
+        }
+        break;
+    }
     }
 }
 
@@ -374,17 +804,30 @@ static int apply(void *vst, int op, bool check)
     pxm_resume();
     v_watchdog(5);
     struct px_fix *fx = &st->fx;
-    if (op >= OP_REG0 && op <= OP_REG2) {
-        int r = op - OP_REG0;
+    if (op_reg(op) >= 0) {
+        int r = op_reg(op);
+        bool full = oob_full(st);
         st->reg[r] = true;
         st->reg_cb_base[r] = st->ncb;
-        upipe_register_request(head_pipe(st), &st->req[r]);
-    } else if (op >= OP_UNREG0 && op <= OP_UNREG2) {
-        int r = op - OP_UNREG0;
+        int err = upipe_register_request(head_pipe(st), &st->req[r]);
+        if (full && head_routed(st)) {
+            /* the registration cannot cross the queue: the requester must be told, and nothing is owed downstream */
+            st->refused[r] = true;
+            if (ubase_check(err))
+                st->refusal_unreported = true;
+        }
+    } else if (op_unreg(op) >= 0) {
+        int r = op_unreg(op);
+        bool full = oob_full(st);
         upipe_unregister_request(head_pipe(st), &st->req[r]);
         st->reg[r] = false;
-        if (st->pending && st->pend_req == r)
-            st->pending = false; /* withdrawn before the answer arrived: nothing is owed */
+        if (st->refused[r])
+            st->refused[r] = false;
+        else if (full && head_routed(st))
+            st->stale[r]++; /* the withdrawal cannot cross the queue now */
+        else if (g_topo == 3 && head_routed(st))
+            st->unreg_inflight[r] = true;
+        st->pend_n[r] = 0; /* withdrawn before the answer arrived: nothing is owed */
     } else if (op == OP_P1_NEXT) {
         ubase_assert(upipe_set_output(st->p1, p1_next(st)));
         st->p1_out = 1;
@@ -401,6 +844,10 @@ static int apply(void *vst, int op, bool check)
         do_provide(st, op - OP_PROVIDE_T0);
     } else if (op >= OP_PUMP0 && op <= OP_PUMP2) {
         dispatch(st, op - OP_PUMP0);
+    } else if (op == OP_FILL) {
+        fill(st);
+    } else if (op == OP_DRAIN) {
+        drain(st);
     } else if (op == OP_P1_FLOWDEF || op == OP_P1_FLOWDEF2) {
         struct uref *f = px_flow(fx, op == OP_P1_FLOWDEF ? "block." : "block.unframed.", 1);
         ubase_assert(upipe_set_flow_def(st->p1, f));
@@ -419,11 +866,19 @@ static int apply(void *vst, int op, bool check)
                 upipe_unregister_request(head_pipe(st), &st->req[r]);
                 st->reg[r] = false;
             }
-        st->pending = false;
+        memset(st->pend_n, 0, sizeof(st->pend_n));
+        st->pend_own = false;
         upipe_release(st->p1);
         st->p1 = NULL;
+        st->ubm = NULL;
+        st->own_ff = st->own_ubm = false;
         st->p1_released = true;
     }
+    /* re-plumbing P1 withdraws from the queue sink what P1 had forwarded (and registers it again): messages too */
+    if ((op == OP_P1_NEXT || op == OP_P1_NULL) && g_topo == 3)
+        for (int r = 0; r < NREQ; r++)
+            if (st->reg[r])
+                st->unreg_inflight[r] = true;
     /* P1 -> NULL (or P1 released) while P2 was only held by P1: P2 is gone */
     if ((op == OP_P1_NULL || op == OP_REL_P1) && st->p2_released && g_topo != 3)
         st->p2_out = 0;
@@ -435,8 +890,12 @@ static int apply(void *vst, int op, bool check)
     if (!st->p1_released) {
         check_routing(st, when);
         check_probe_fallback(st, when);
+        check_p1(st, when);
     }
     check_callbacks(st, when);
+    check_qfull(st, when);
+    if (g_topo == 3 && loop_idle(st))
+        memset(st->unreg_inflight, 0, sizeof(st->unreg_inflight)); /* every message has been consumed */
     pxm_pause();
     if (st->viol) {
         snprintf(seqx_sig, sizeof(seqx_sig), "%s", st->vsig);
@@ -453,14 +912,25 @@ static int final_check(void *vst)
     g_cur = st;
     pxm_resume();
     v_watchdog(5);
+    /* the full queue is a passing condition: it has emptied before the pipeline is taken down (a queue source released
+     * while its out-of-band queue is full cannot be told and stays: seen, outside this property) */
+    if (g_env) {
+        drain(st);
+        check_callbacks(st, "after the final drain (before the teardown)");
+    }
     for (int r = 0; r < NREQ; r++)
         if (st->reg[r]) {
             upipe_unregister_request(head_pipe(st), &st->req[r]);
             st->reg[r] = false;
         }
-    st->pending = false;
+    if (st->dhold_reg) {
+        upipe_unregister_request(head_pipe(st), &st->dhold);
+        st->dhold_reg = false;
+    }
+    memset(st->pend_n, 0, sizeof(st->pend_n));
     if (st->p1)
         upipe_release(st->p1);
+    st->ubm = NULL;
     if (!st->p2_released)
         upipe_release(st->p2);
     if (st->dup_super)
@@ -469,12 +939,14 @@ static int final_check(void *vst)
         upipe_release(st->qsink);
     if (st->qsrc)
         upipe_release(st->qsrc);
-    int budget = 200;
+    int budget = g_env ? 4000 : 200;
     while (budget-- > 0 && dispatch(st, 0) == 0)
         ;
     check_callbacks(st, "after teardown");
     for (int r = 0; r < NREQ; r++)
         urequest_clean(&st->req[r]);
+    urequest_clean(&st->dreq);
+    urequest_clean(&st->dhold);
     char sg[96] = "";
     const char *m = px_fix_fini(&st->fx, sg, sizeof(sg));
     if (m)
@@ -484,12 +956,16 @@ static int final_check(void *vst)
         snprintf(seqx_sig, sizeof(seqx_sig), "%s", st->vsig);
         snprintf(seqx_msg, sizeof(seqx_msg), "%s", st->vmsg);
     }
+    bool lost = false;
+    for (int r = 0; r < NREQ; r++)
+        lost |= st->stale[r] > 0;
     free(st);
     char leak[200];
     int left = pxm_end(leak, sizeof(leak));
     if (!viol && left) {
-        snprintf(seqx_sig, sizeof(seqx_sig), "topo%d:end:heap-blocks-left", g_topo);
-        snprintf(seqx_msg, sizeof(seqx_msg), "%d heap block(s) (request proxies?) still allocated after teardown (sizes: %s)", left, leak);
+        snprintf(seqx_sig, sizeof(seqx_sig), "topo%d%s:end:heap-blocks-left%s", g_topo, g_env ? ":qfull" : "", lost ? "-after-lost-withdrawal" : "");
+        snprintf(seqx_msg, sizeof(seqx_msg), "%d heap block(s) (request proxies?) still allocated after teardown (sizes: %s)%s", left, leak,
+                 lost ? "; a withdrawal could not be sent in this history (queue full)" : "");
         return SEQX_VIOL;
     }
     return viol ? SEQX_VIOL : SEQX_OK;
@@ -510,6 +986,7 @@ static bool nontrivial(void *vst)
 
 int main(int argc, char **argv)
 {
+    const char *reqs = NULL;
     for (int i = 1; i < argc; i++) {
         if (!strcmp(argv[i], "--topo") && i + 1 < argc)
             g_topo = atoi(argv[++i]);
@@ -517,14 +994,46 @@ int main(int argc, char **argv)
             g_pool = atoi(argv[++i]);
         else if (!strcmp(argv[i], "--nreq") && i + 1 < argc)
             g_nreq = atoi(argv[++i]);
+        else if (!strcmp(argv[i], "--reqs") && i + 1 < argc)
+            reqs = argv[++i];
         else if (!strcmp(argv[i], "--tprov") && i + 1 < argc)
             g_tprov = atoi(argv[++i]);
         else if (!strcmp(argv[i], "--cb") && i + 1 < argc)
             g_cbmode = atoi(argv[++i]);
+        else if (!strcmp(argv[i], "--env") && i + 1 < argc)
+            g_env = atoi(argv[++i]);
+        else if (!strcmp(argv[i], "--head") && i + 1 < argc)
+            g_head = atoi(argv[++i]);
+    }
+    if (reqs != NULL) {
+        for (const char *p = reqs; *p;) {
+            int r = (int)strtol(p, (char **)&p, 10);
+            if (r < 0 || r >= NREQ) {
+                fprintf(stderr, "--reqs: no request type %d\n", r);
+                return 3;
+            }
+            g_mask |= 1u << r;
+            if (*p == ',')
+                p++;
+        }
+    } else {
+        if (g_nreq < 0 || g_nreq > 3) {
+            fprintf(stderr, "--nreq: 0..3 (the first n of uref_mgr, uclock, sink_latency); other sets with --reqs\n");
+            return 3;
+        }
+        g_mask = (1u << g_nreq) - 1;
+    }
+    if ((g_env && g_topo != 3) || (g_head && !g_env) || (g_env && IN_ALPHABET(2))) {
+        fprintf(stderr, "--env 1 needs --topo 3 and a request set without sink_latency (the burst uses it); --head 1 needs --env 1\n");
+        return 3;
     }
     static struct seqx_spec spec;
-    char nm[64];
-    snprintf(nm, sizeof(nm), "c12_request:topo%d:pool%d:tprov%d:cb%d", g_topo, g_pool, g_tprov, g_cbmode);
+    char nm[96];
+    if (reqs != NULL || g_env)
+        snprintf(nm, sizeof(nm), "c12_request:topo%d:pool%d:tprov%d:cb%d:reqs%s:env%d:head%d", g_topo, g_pool, g_tprov, g_cbmode, reqs ? reqs : "-", g_env,
+                 g_head);
+    else
+        snprintf(nm, sizeof(nm), "c12_request:topo%d:pool%d:tprov%d:cb%d", g_topo, g_pool, g_tprov, g_cbmode);
     spec.name = strdup(nm);
     spec.nops = NOPS;
     spec.init = init;
